@@ -44,6 +44,9 @@ type C20Case struct {
 	// move the same volume in the opposite direction (plain requests): each direction has an allowance of its own, so
 	// the measured one still finishes in about ExtraMs.
 	CounterFlow bool `json:"counter_flow,omitempty"`
+	// DrainMs > 0: this long after the start the proxy is told to shut down gracefully (drain time 20 s): its listener
+	// closes, the transfers under way go on - and remain subject to the limits until they end
+	DrainMs int `json:"drain_ms,omitempty"`
 }
 
 func genC20(t *rapid.T) C20Case {
@@ -76,7 +79,10 @@ func genC20(t *rapid.T) C20Case {
 		} else {
 			c.WriteLimit, c.ReadLimit = rate, other
 		}
-		if c.TimeoutMs == 0 && c.WindowMs == 0 && rapid.IntRange(0, 3).Draw(t, "counterflow") == 0 {
+		if c.TimeoutMs == 0 && c.WindowMs == 0 && rapid.IntRange(0, 3).Draw(t, "drain") == 0 {
+			c.DrainMs = rapid.SampledFrom([]int{60, 150, 300}).Draw(t, "drainms")
+		}
+		if c.TimeoutMs == 0 && c.WindowMs == 0 && c.DrainMs == 0 && rapid.IntRange(0, 3).Draw(t, "counterflow") == 0 {
 			c.CounterFlow = true
 			c.ReadLimit, c.WriteLimit = 1<<20, 1<<20
 		}
@@ -219,6 +225,9 @@ func runC20once(c C20Case) (fails []vstat.Failure) {
 		return []vstat.Failure{vstat.Failf("C20:harness", "origin: %v", err)}
 	}
 	po := ProxyOpts{ReadLimit: int64(c.ReadLimit), WriteLimit: int64(c.WriteLimit), ShutdownTimeout: time.Second}
+	if c.DrainMs > 0 {
+		po.ShutdownTimeout = 20 * time.Second
+	}
 	if c.TimeoutMs > 0 {
 		po.ReadTimeout, po.WriteTimeout = time.Duration(c.TimeoutMs)*time.Millisecond, time.Duration(c.TimeoutMs)*time.Millisecond
 	}
@@ -265,6 +274,10 @@ func runC20once(c C20Case) (fails []vstat.Failure) {
 	}
 	res := make([]connRes, c.Conns)
 	var wg sync.WaitGroup
+	if c.DrainMs > 0 {
+		drain := time.AfterFunc(time.Duration(c.DrainMs)*time.Millisecond, px.Cancel)
+		defer drain.Stop()
+	}
 	var cfWG sync.WaitGroup
 	if c.CounterFlow {
 		for i := 0; i < c.Conns; i++ {
@@ -412,6 +425,13 @@ func runC20once(c C20Case) (fails []vstat.Failure) {
 	// ---- data intact
 	var all []c20Sample
 	for i, r := range res {
+		if r.err != nil && c.DrainMs > 0 && r.n == 0 {
+			// the request may have reached the proxy after the shutdown had begun (a slow start under load): it is then
+			// refused, which is the subject of C11, and this case has measured nothing
+			st.Inconclusive()
+			st.Class("transfer-not-started-before-shutdown")
+			return nil
+		}
 		if r.err != nil {
 			return append(fails, vstat.Failf(key("transfer-failed"), "connection %d: %v (limits read=%d write=%d)", i, r.err, c.ReadLimit, c.WriteLimit))
 		}
@@ -495,6 +515,9 @@ func classifyC20(c C20Case) (bool, string, []string) {
 	cls := []string{"dir-" + c.Dir, fmt.Sprintf("conns=%d", c.Conns), "listener-" + c.Stack}
 	if c.CounterFlow {
 		cls = append(cls, "counter-flow")
+	}
+	if c.DrainMs > 0 {
+		cls = append(cls, "shutdown-while-transferring")
 	}
 	if c.WindowMs > 0 {
 		cls = append(cls, "limit-below-one-io-call")
